@@ -8,6 +8,7 @@ import (
 	"encoding/json"
 
 	"github.com/orda-io/orda/client/pkg/model"
+	"github.com/orda-io/orda/client/pkg/orda"
 	"github.com/orda-io/orda/client/pkg/vf"
 )
 
@@ -61,4 +62,50 @@ func VF_C18_Notify() {
 	var msg model.Notification
 	vf.Assert(json.Unmarshal(p.Payload, &msg) == nil, "C18 payload decodes")
 	vf.Assert(vf.All(msg.CUID == vfCUIDx, msg.DUID == vfDUID, msg.Sseq == st.e+uint64(stored)), "C18 payload carries pusher, datatype and the new end of the log")
+}
+
+// VF_C18_PublishFails (C18, C16): the broker is unreachable for one or two
+// announcements.  The pushes are committed and answered all the same; once the
+// broker is back every committed push is announced again exactly once, with a
+// payload that decodes and names its own pusher, datatype and end of log
+// (nothing of a failed announcement leaks into a later one).
+func VF_C18_PublishFails() {
+	w := vfNewWorld()
+	w.seedCollection(vfCol, 1)
+	a, b := w.newPeer("a", vfCUIDx), w.newPeer("b", vfCUIDy)
+	a.cnt = a.cli.CreateCounter(vfKey, a.handlers())
+	vf.Assert(a.cli.Sync() == nil, "creator syncs")
+	vf.Quiesce()
+	b.cnt = b.cli.SubscribeCounter(vfKey, b.handlers())
+	vf.Assert(b.cli.Sync() == nil, "subscriber syncs")
+	vf.Quiesce()
+	w.mq.failPubs = 1 + vf.Choice("failed-publishes", 2)
+	failed := w.mq.failPubs
+	n0 := len(w.mq.Published)
+	pushes := failed + 2
+	for i := 0; i < pushes; i++ {
+		p := a
+		if i%2 == 1 {
+			p = b
+		}
+		_, _ = p.cnt.IncreaseBy(1)
+		vf.Assert(p.cli.Sync() == nil, "C16 a push is committed and answered whether or not it can be announced")
+		vf.Quiesce()
+	}
+	vf.Reach("pushed")
+	d := w.datatype(orda.VFDUID(a.cnt))
+	vf.Assert(d != nil && w.logInvariant(d.DUID) && int(d.Sseq.End) == 1+pushes, "C06 every push is stored")
+	pubs := w.mq.Published[n0:]
+	vf.Assert(len(pubs) == pushes-failed, "C18 every committed push after the outage is announced exactly once")
+	for i, pub := range pubs {
+		var note model.Notification
+		vf.Assert(json.Unmarshal(pub.Payload, &note) == nil, "C18 the payload of an announcement decodes")
+		k := failed + i // index of the push this announcement belongs to
+		wantCUID := vfCUIDx
+		if k%2 == 1 {
+			wantCUID = vfCUIDy
+		}
+		vf.Assert(pub.Topic == vfCol+"/"+vfKey && note.CUID == wantCUID && note.DUID == d.DUID && note.Sseq == uint64(2+k),
+			"C18 an announcement carries its own pusher, datatype and end of log")
+	}
 }
